@@ -49,6 +49,13 @@ def emitted(sc, ob):
                 out.append(('--output', ent[1], srcs[-1]))
         elif b is not None and b != ent:
             out.append(('in-place ' + rel, ent[1], b[1]))
+    if '--in-place' in sc.get('flags', []) and ob['exit'] == 0:
+        # a successful in-place run: EVERY selected module holds what the API returns for it (under the size rule), also the ones left unchanged
+        done = {w for w, _a, _b in out}
+        for rel in visit_order(sc, ob):
+            b, a = ob['before'].get(rel), ob['after'].get(rel)
+            if b is not None and a is not None and b[0] == 'file' and a[0] == 'file' and ('in-place ' + rel) not in done:
+                out.append(('in-place ' + rel, a[1], b[1]))
     if not sc.get('output') and '--in-place' not in sc.get('flags', []) and len(sc['paths']) == 1 and ob['exit'] == 0:
         p = sc['paths'][0]
         if p in ob['before'] and ob['before'][p][0] == 'file':
